@@ -166,6 +166,10 @@ def run(chk):
         rows.append((f"RandomProjection({v})", f"g_rp_ctor {coq_pv(v)}", lambda v=v: RandomProjection(n_basis_modes=pyv(v)), True))
     for k in (1, nrows, nrows + 1, nrows + 4):
         rows.append((f"Identity({k}).fit(rows={nrows})", f"g_identity_fit {k} {nrows}", lambda k=k: Identity(n_basis_modes=k).fit(X), True))
+    for k in (1, min(nrows, nf), nrows + 1, nf + 1, max(nrows, nf) + 3):
+        for Xd, lab in ((X, "X"), (X.T.copy(), "X^T")):
+            rows.append((f"SVD({k}).fit({lab}: {Xd.shape[0]} examples x {Xd.shape[1]} features)", f"g_svd_fit {k} {Xd.shape[0]} {Xd.shape[1]}",
+                         lambda k=k, Xd=Xd: SVD(n_basis_modes=k, random_state=0).fit(Xd), True))
     for mkb, avail, nm in ((lambda: Identity(), nrows, "Identity"), (lambda: SVD(n_basis_modes=4, random_state=0), 4, "SVD"),
                            (lambda: RandomProjection(n_basis_modes=4, random_state=0), 4, "RandomProjection")):
         for fitted in (False, True):
